@@ -185,6 +185,15 @@ func (g *Global) callMods(out map[string]modInfo, c *ssa.CallCommon, closureOf f
 			}
 		}
 	case *ssa.Function:
+		if g.funcKey(f) == "proto.Clone" && len(c.Args) == 1 {
+			if mk, ok := c.Args[0].(*ssa.MakeInterface); ok {
+				if pt, ok := mk.X.Type().Underlying().(*types.Pointer); ok {
+					// allocation-only effect on the heaps of the message types reachable from the cloned message
+					g.cloneMods(out, pt.Elem(), map[string]bool{})
+					return
+				}
+			}
+		}
 		for n, mi := range g.modsetOfFunc(f) {
 			addMod(out, n, mi.sort, mi.mutates)
 		}
@@ -219,6 +228,11 @@ func (g *Global) modsetOfFunc(f *ssa.Function) map[string]modInfo {
 				out[n] = modInfo{sort: srt, mutates: false}
 			}
 		}
+		return out
+	}
+	if key == "binary.littleEndian.PutUint64" {
+		out := map[string]modInfo{}
+		g.addLeafMods(out, LElem, "E$uint8", types.Typ[types.Uint8], true)
 		return out
 	}
 	if key == "slices.Sort" {
@@ -435,4 +449,37 @@ func (tr *Tr) loopMods(fr *Frame, li *loopInfo) map[string]modInfo {
 		}
 	}
 	return out
+}
+
+// cloneMods: heap variables that receive fresh objects when a message of struct type t is deep-copied.
+func (g *Global) cloneMods(out map[string]modInfo, t types.Type, seen map[string]bool) {
+	k := typeKey(t)
+	if seen[k] {
+		return
+	}
+	seen[k] = true
+	st, ok := t.Underlying().(*types.Struct)
+	if !ok {
+		return
+	}
+	for i := 0; i < st.NumFields(); i++ {
+		f := st.Field(i)
+		if g.ignoredField(t, f) {
+			continue
+		}
+		g.addLeafMods(out, LField, fieldPrefix(t, f.Name()), f.Type(), false)
+		switch ft := f.Type().Underlying().(type) {
+		case *types.Pointer:
+			if _, isStruct := ft.Elem().Underlying().(*types.Struct); isStruct {
+				g.cloneMods(out, ft.Elem(), seen)
+			} else {
+				g.addLeafMods(out, LCell, cellPrefix(ft.Elem()), ft.Elem(), false)
+			}
+		case *types.Slice:
+			g.addLeafMods(out, LElem, elemPrefix(ft.Elem()), ft.Elem(), false)
+			if pt, ok := ft.Elem().Underlying().(*types.Pointer); ok {
+				g.cloneMods(out, pt.Elem(), seen)
+			}
+		}
+	}
 }
